@@ -257,6 +257,11 @@ class Oracle:
         r = self._ask("sign %d %s %s" % (kid, alg, msg.hex() or "-"))
         return None if r in ("err", "badop") else (b"" if r == "-" else bytes.fromhex(r))
 
+    def sign_foreign(self, kid, alg, msg, width):
+        """ECDSA with the digest of `alg` by a key of another curve, r||s at `width` octets each (None if the oracle refuses)"""
+        r = self._ask("xsign %d %s %s %d" % (kid, alg, msg.hex() or "-", width))
+        return None if r in ("err", "badop", "") else bytes.fromhex(r)
+
     def close(self):
         try:
             self.p.stdin.close()
